@@ -70,8 +70,9 @@ class C07(DevProp):
             for i in range(naxes):
                 code = agen.ABS_X if same_code else [agen.ABS_X, agen.ABS_Y, agen.ABS_RX][i]
                 sub = SUBS[i] if same_code else ""
-                kind = rng.choice(["s8", "s16", "u8c", "u16c"])
-                mn, mx = {"s8": (-128, 127), "s16": (-32768, 32767), "u8c": (0, 255), "u16c": (0, 65535)}[kind]
+                # "u8" / "u10": unsigned bidirectional axes WITHOUT deadzone_at_center (the pair is split at half scale)
+                kind = rng.choice(["s8", "s16", "u8c", "u16c", "u8", "u10"])
+                mn, mx = {"s8": (-128, 127), "s16": (-32768, 32767), "u8c": (0, 255), "u16c": (0, 65535), "u8": (0, 255), "u10": (0, 1024)}[kind]
                 off, offneg = rng.choice([0, 0, 3, 15]), rng.choice([0, 0, 7])
                 if same_code:
                     kind = ["s8", "u8c", "s8"][i] if i else kind      # one AbsInfo per code: keep ranges compatible
@@ -113,6 +114,14 @@ class C07(DevProp):
                 ev.append(k(LEARN, 0))
             for code, pos, sub in axinfo:
                 ev += [a(code, pos["far+"], sub), a(code, pos["far-"], sub), a(code, pos["c"], sub)]
+            # the smallest possible crossings of the centre: from one or two raw steps on one side directly to the other side / onto it
+            for code, pos, sub in axinfo:
+                mnx, mxx = [(x["min"], x["max"]) for x in absl if x["code"] == code][0]
+                cands = [0] if mnx < 0 else sorted({(mnx + mxx) // 2, (mnx + mxx + 1) // 2})
+                for c0 in cands:
+                    for (x, y, z) in ((mxx, c0 + 1, c0 - 1), (mnx, c0 - 1, c0 + 1), (mxx, c0 + 1, c0), (mnx, c0 - 1, c0), (mxx, c0 + 2, c0 - 1),
+                                      (mnx, c0 - 2, c0 + 1), (mxx, c0 + 1, c0 - 2), (mnx, c0 - 1, c0 + 2)):
+                        ev += [a(code, v, sub) for v in (x, y, z) if mnx <= v <= mxx]
             cases.append({"cfg": cfg, "abs": absl, "events": ev, "pairs": pairs, "tag": "%d-axes" % naxes})
         return cases
 
